@@ -50,6 +50,11 @@ class T(Sym):
         self.shape = tuple(1 if (len(l) > 1 and isinstance(l[1], tuple) and l[1][0] == "root") else Dim([str(l)]) for l in self.legs)
         self.ndim = len(self.legs)
 
+    @property
+    def size(self):
+        from .syminterp import Blob
+        return Blob("number of elements")
+
     def conj(self):
         return T(self._name + ".conj()", [flip(l) for l in self.legs], not self.is_conj)
 
